@@ -88,6 +88,37 @@ def run(env):
             for _ in range(1 if env.quick else 4):
                 i = r.randrange(len(b)); bb = bytearray(b); bb[i] ^= 1 << r.randrange(8)
                 st2.append({"ctx": ctx, "op": "de_" + kind, "args": [hexb(bytes(bb))], "_src": c, "tag": "bitflip"})
+    # structural surgery on Vec<Vec<u8>> encodings (u32 count, then per item u32 length + bytes): an item carrying surplus
+    # bytes INSIDE its own length prefix, a shortened item, a bumped count — each inner entry must be decoded strictly
+    import struct
+    def svec_parse(b_):
+        if len(b_) < 4: return None
+        n_ = struct.unpack_from("<I", b_, 0)[0]; off = 4; its = []
+        for _ in range(n_):
+            if off + 4 > len(b_): return None
+            ln = struct.unpack_from("<I", b_, off)[0]; its.append(b_[off + 4: off + 4 + ln]); off += 4 + ln
+        return its if off == len(b_) else None
+    def svec_build(its, count=None):
+        return struct.pack("<I", len(its) if count is None else count) + b"".join(struct.pack("<I", len(x)) + x for x in its)
+    nsurg = {}
+    for c, o in zip(st1, o1):
+        kind = c["_kind"]
+        if not kind.startswith("vec_") or not (isinstance(o, str) and o.startswith("x:")) or c["ctx"].endswith("2048"):
+            continue
+        its = svec_parse(wire.unhx(o))
+        if not its:
+            continue
+        nsurg[(c["ctx"], kind)] = nsurg.get((c["ctx"], kind), 0) + 1
+        if nsurg[(c["ctx"], kind)] > 3:
+            continue
+        for i in sorted({0, len(its) - 1, len(its) // 2}):
+            for extra in (b"\x00", b"\xff", its[i][-1:] * 2, its[i]):
+                v = list(its); v[i] = v[i] + extra
+                st2.append({"ctx": c["ctx"], "op": "de_" + kind, "args": [hexb(svec_build(v))], "_err": True, "_src": c, "tag": "inside an item appended"})
+            if len(its[i]) > 0:
+                v = list(its); v[i] = v[i][:-1]
+                st2.append({"ctx": c["ctx"], "op": "de_" + kind, "args": [hexb(svec_build(v))], "_src": c, "tag": "item-truncated"})
+        st2.append({"ctx": c["ctx"], "op": "de_" + kind, "args": [hexb(svec_build(its, count=len(its) + 1))], "_err": True, "_src": c, "tag": "count+1 appended"})
     o2 = env.harness(st2)
     for c, o in zip(st2, o2):
         if c["op"] != "de_vec_cp" or True:
